@@ -902,11 +902,18 @@ def add_reuse_steps(rng, h, keys):
 
 
 def parse_table(line):
+    """driver answers are parsed defensively: an answer without the expected shape gives an empty table (every comparison that
+    needs it then disagrees), never an exception"""
     tab = []
-    if line and line != "-":
-        for row in line.split(";"):
-            i, ev, kind, loc, via, field = row.split("|")
-            tab.append({"i": int(i), "ev": ev, "kind": kind, "loc": loc, "via": via, "field": field})
+    try:
+        if line and line != "-":
+            for row in line.split(";"):
+                i, ev, kind, loc, via, field = row.split("|")
+                if ev not in ("perCall", "atDefinition", "atImport"):
+                    return []
+                tab.append({"i": int(i), "ev": ev, "kind": kind, "loc": loc, "via": via, "field": field})
+    except (ValueError, AttributeError):
+        return []
     return tab
 
 
@@ -999,7 +1006,8 @@ def check_history(ck, s, drv, tab, hist, res, seen_global, hid, hits):
             sites.append(str(idx))
         real_parts.append(",".join(items) if items else "_")
         req_parts.append(",".join(sites) if sites else "_")
-    nontriv = sum(1 for p in real_parts if p != "_") >= 2
+    # (statistics must not depend on the model's table either)
+    nontriv = sum(1 for b in builds if any(o["sup"] is None and o.get("v") for o in b["obs"])) >= 2
     s.note(inp, nontrivial=nontriv, cls=f"builds={len(hist)}" if ok_all else "error")
     if unknown is not None:
         s.compare(inp, "draw at " + unknown, "no such site in Generated.secretSites", "a draw observed at run time is missing from the generated site table")
@@ -1015,10 +1023,13 @@ MBI_PATHS = {"setter": "ctr_init_vector.setter", "load": "mix_load_from_config",
 
 def parse_slots(line):
     rows = []
-    if line and line not in ("-", "bad-op"):
-        for row in line.split(";"):
-            i, kind, cls, slot, method, role, resets, direct = row.split("|")
-            rows.append({"i": int(i), "kind": kind, "cls": cls, "slot": slot, "method": method, "role": role, "resets": resets == "1", "direct": direct == "1"})
+    try:
+        if line and line not in ("-", "bad-op"):
+            for row in line.split(";"):
+                i, kind, cls, slot, method, role, resets, direct = row.split("|")
+                rows.append({"i": int(i), "kind": kind, "cls": cls, "slot": slot, "method": method, "role": role, "resets": resets == "1", "direct": direct == "1"})
+    except (ValueError, AttributeError):
+        return []
     return rows
 
 
@@ -1056,7 +1067,7 @@ def check_reuse_model(ck, s2, drv, slots, hist, res):
             via = None if spec["iv"] == "absent" else "setter"
         if via is not None:
             if path[via] is None:
-                s2.note(inp, cls="path-missing")
+                s2.note(inp, nontrivial=any("reuse" in x for x in hist), cls="path-missing")
                 s2.compare(inp, f"{MBI_CLS}.{MBI_PATHS[via]} re-specifies the counter IV", "no such row in Generated.secretSlots",
                            "a re-specification path exercised on the implementation is missing from the generated object-state table")
                 return
@@ -1199,10 +1210,13 @@ def check_samedir(ck, s, drv, sources, item, recs, state):
 
 def parse_sources(line):
     rows = []
-    if line and line not in ("-", "bad-op"):
-        for row in line.split(";"):
-            i, kind, scope, var, loc, guard, alt = row.split("|")
-            rows.append({"i": int(i), "kind": kind, "scope": scope, "var": var, "loc": loc, "guard": guard, "altFile": alt == "1"})
+    try:
+        if line and line not in ("-", "bad-op"):
+            for row in line.split(";"):
+                i, kind, scope, var, loc, guard, alt = row.split("|")
+                rows.append({"i": int(i), "kind": kind, "scope": scope, "var": var, "loc": loc, "guard": guard, "altFile": alt == "1"})
+    except (ValueError, AttributeError):
+        return []
     return rows
 
 
@@ -1282,6 +1296,8 @@ def stream_restart(ck, scratch, samedir=None, drv=None):
 
 
 def common_setup(ck):
+    # no op of drv_c17 is Spec-only: every answer comes from Model/Fresh*.lean over Generated/*; nothing of it feeds an oracle
+    ck.spec_ops = set()
     ck.lean_obligations(generated=["SecretSites", "SecretState"])
     drv = ck.driver()
     ck.assume("secrets.token_bytes / token_hex / randbelow (OS entropy) never return the same value twice - modelled as a counter (`Fresh.draw`); "
